@@ -430,7 +430,7 @@ class Tr:
             return b, f"(List.reverse {c})", t
         if fn in ("len",):
             b, c, t = self.E(node.args[0], env)
-            if not (isinstance(t, tuple) and t[0] == "List"):
+            if not (isinstance(t, tuple) and t[0] in ("List", "Dict")):
                 raise Untranslatable(f"len of {t}")
             return b, f"(Py.len {c})", "Int"
         if fn in ("min", "max"):
@@ -913,9 +913,33 @@ class Tr:
                            lambda: self.T(list(st.orelse), env, cont, loop))
 
     def env_after_if(self, st, env):
-        """variables visible after an `if` whose branches both fall through: those defined before it (a name first
-        assigned inside a branch and read afterwards is reported as unknown, i.e. untranslatable)"""
-        return dict(env)
+        """variables visible after an `if` whose branches both fall through: those defined before it, plus names
+        assigned (with one type) in *both* branches"""
+        import copy
+
+        def probe(stmts):
+            twin = copy.copy(self)
+            twin.aux = list(self.aux)
+            twin.tags = dict(self.tags)
+            seen = []
+
+            def grab(e):
+                seen.append(dict(e))
+                return ["pure ()"]
+
+            try:
+                twin.T(list(stmts), dict(env), grab, (grab, grab))
+            except Untranslatable:
+                return None
+            return seen[0] if seen else None
+
+        e1, e2 = probe(st.body), probe(st.orelse)
+        out = dict(env)
+        if e1 and e2:
+            for name, ty in e1.items():
+                if name not in out and name in e2 and e2[name] == ty and not name.startswith("it_rest"):
+                    out[name] = ty
+        return out
 
     def pattern(self, target, t):
         """Lean pattern and environment additions for a for-loop target of element type t"""
